@@ -141,7 +141,7 @@ class TelApp(Application):
     def print_model(self, model, printer):
         table = {}
         for sym in model.symbols(shown=True):
-            if sym.type == SymbolType.Function and len(sym.arguments) > 0:
+            if sym.type == SymbolType.Function and len(sym.arguments) > 0 and sym.arguments[-1].type == SymbolType.Number:
                 table.setdefault(sym.arguments[-1].number, []).append(Function(sym.name, sym.arguments[:-1], sym.positive))
         for step in range(self.__horizon+1):
             symbols = table.get(step, [])
